@@ -197,6 +197,22 @@ class Skel:
         else:
             val, wid = None, args[1]
         wn = F.ex[F.strip_casts(wid)]
+        # a width kept in a local with a single definition is that definition (`int bits=ov_ilog(n-1); read(opb,bits)`)
+        for _ in range(3):
+            if wn['k'] == 'ref' and wn['decl']['kind'] == 'var':
+                from rules import common
+                d = common.single_defs(F).get(wn['decl']['id'])
+                if d is None:
+                    break
+                dc = self.canon(F, d)
+                # only a definition in terms of set-up fields says more than "some local" (a width that was itself read
+                # from the stream, or computed from other locals, stays a wild card)
+                if '.' not in dc or READ in dc or WRITE in dc:
+                    break
+                wid = d
+                wn = F.ex[F.strip_casts(wid)]
+            else:
+                break
         width = wn['v'] if wn['k'] == 'int' else self.canon(F, wid)
         if self.mode == 'w':
             base, off = self.affine(F, val)
